@@ -115,6 +115,13 @@ pub fn check_exactly_once(out: &mut Out, prop: &str, r: &Round, replay: &dyn Fn(
             }
         }
     }
+    if r.late_replies > 0 && r.panic.is_none() {
+        out.violation(
+            &format!("{} replies-stranded-until-further-traffic", prop),
+            &format!("{} of {} replies were sent only after an unrelated later datagram arrived; with no further traffic those requests would have stayed unanswered ({} datagrams in the burst)", r.late_replies, r.replies.len(), r.sent.len()),
+            replay(),
+        );
+    }
     for (i, s) in r.sent.iter().enumerate() {
         match s.expect {
             Expect::Must => {
@@ -174,6 +181,11 @@ pub fn reason_class(why: &str) -> &'static str {
 }
 
 fn burst_size(rng: &mut Rng, b: usize) -> usize {
+    // occasionally more than the server may answer in one call (64 batches), while the whole
+    // burst still fits the 4 MiB receive buffer
+    if b <= 20 && rng.chance(1, 6) {
+        return 64 * b + rng.range(1, 2 * b as u64 + 8) as usize;
+    }
     let v = match rng.below(8) {
         0 => 1,
         1 => b.saturating_sub(1).max(1),
